@@ -8,8 +8,11 @@
 #define _GNU_SOURCE
 #include <pthread.h>
 #include <stdint.h>
+#include <stdio.h>
 #include <string.h>
+#include <sys/syscall.h>
 #include <time.h>
+#include <unistd.h>
 
 #define MAXT 16
 
@@ -20,6 +23,7 @@ static int granted = -1;
 static int parked[MAXT];
 static int finished[MAXT];
 static int registered[MAXT];
+static long ktid[MAXT];
 static uint64_t points = 0;
 static __thread int my_tid = -1;
 
@@ -48,6 +52,7 @@ void vb_thread_begin(int tid) {
     my_tid = tid;
     pthread_mutex_lock(&mu);
     registered[tid] = 1;
+    ktid[tid] = (long)syscall(SYS_gettid);
     park_locked(tid);
     pthread_mutex_unlock(&mu);
 }
@@ -79,14 +84,39 @@ static uint64_t sm(uint64_t *s) {
     return z ^ (z >> 31);
 }
 
-/* returns the number of scheduling decisions, or -1 if a thread made no progress for 60 s */
+/* state ('R', 'S', 'D', ...) and consumed CPU (clock ticks) of a thread of this process; 0 if unreadable */
+static char thread_state(long tid, unsigned long *ticks) {
+    char path[64], buf[512];
+    snprintf(path, sizeof path, "/proc/self/task/%ld/stat", tid);
+    FILE *f = fopen(path, "r");
+    if (!f) return 0;
+    size_t n = fread(buf, 1, sizeof buf - 1, f);
+    fclose(f);
+    buf[n] = 0;
+    char *p = strrchr(buf, ')');
+    if (!p || !p[1] || !p[2]) return 0;
+    char st = p[2];
+    unsigned long ut = 0, stt = 0;
+    /* fields after the state: ppid pgrp session tty tpgid flags minflt cminflt majflt cmajflt utime stime */
+    sscanf(p + 3, " %*d %*d %*d %*d %*d %*u %*u %*u %*u %*u %lu %lu", &ut, &stt);
+    *ticks = ut + stt;
+    return st;
+}
+
+/* returns the number of scheduling decisions, -1 if the thread holding the baton was *blocked* (not runnable) for 30 s
+ * without reaching a point, -2 if it burnt 30 s of CPU time without reaching one. A thread that is merely starved by
+ * other load is runnable and is waited for (wall-clock time alone decides nothing; hard cap 30 min). */
 int vb_run(const unsigned char *sched, int sched_len, uint64_t seed, unsigned char *out, int cap) {
     int step = 0, last = -1;
     uint64_t st = seed;
+    long hz = sysconf(_SC_CLK_TCK);
     for (;;) {
         pthread_mutex_lock(&mu);
         struct timespec t0;
         clock_gettime(CLOCK_REALTIME, &t0);
+        int blocked_ms = 0;
+        unsigned long cpu0 = 0, cpu1 = 0;
+        int have_cpu0 = 0;
         for (;;) {
             int quiescent = (granted == -1);
             for (int t = 0; t < nthreads && quiescent; t++)
@@ -94,13 +124,27 @@ int vb_run(const unsigned char *sched, int sched_len, uint64_t seed, unsigned ch
             if (quiescent) break;
             struct timespec dl;
             clock_gettime(CLOCK_REALTIME, &dl);
-            if (dl.tv_sec - t0.tv_sec > 60) {
+            if (dl.tv_sec - t0.tv_sec > 1800) {
                 pthread_mutex_unlock(&mu);
                 return -1;
             }
             dl.tv_nsec += 100 * 1000 * 1000;
             if (dl.tv_nsec >= 1000000000L) { dl.tv_sec++; dl.tv_nsec -= 1000000000L; }
             pthread_cond_timedwait(&cv, &mu, &dl);
+            int g = granted;
+            if (g >= 0 && g < MAXT && registered[g]) {
+                char s = thread_state(ktid[g], &cpu1);
+                if (!have_cpu0) { cpu0 = cpu1; have_cpu0 = 1; }
+                if (s == 'S' || s == 'D' || s == 't' || s == 'T') blocked_ms += 100; else if (s) blocked_ms = 0;
+                if (blocked_ms > 30000) {
+                    pthread_mutex_unlock(&mu);
+                    return -1;
+                }
+                if (hz > 0 && (cpu1 - cpu0) / (unsigned long)hz > 30) {
+                    pthread_mutex_unlock(&mu);
+                    return -2;
+                }
+            }
         }
         int runnable[MAXT], nr = 0;
         for (int t = 0; t < nthreads; t++)
